@@ -13,7 +13,7 @@ use oracle::rng::{mix, Rng};
 use serde_json::{json, Value};
 
 pub const ID: &str = "C13";
-pub const FAMS: [&str; 1] = ["render"];
+pub const FAMS: [&str; 2] = ["render", "exact-dark-count"];
 
 pub fn jobs(ctx: &Ctx) -> Vec<RJob> {
     let versions: Vec<usize> = ctx.tier.pick(vec![1, 2, 3, 5, 7, 10, 14, 20, 27, 40], (1..=40).collect());
@@ -95,6 +95,22 @@ pub fn jobs(ctx: &Ctx) -> Vec<RJob> {
             }
         }
     }
+    // symbols whose number of dark modules is exactly a power of two / a multiple of 4096 (found by search)
+    for (i, (v, dk)) in Job::dark_count_cells().into_iter().enumerate() {
+        if ctx.tier == Tier::Quick && v > 27 && i % 2 == 0 {
+            continue;
+        }
+        k += 1;
+        let mut rng = Rng::new(mix(ctx.seed, k ^ 0xdb));
+        let job = Job::dark_count(FAMS[1], dk, v, rng.below(2), rng.below(8), mix(ctx.seed, k));
+        let shape = rng.below(6);
+        let mut spec = Spec { margin: Some(rng.below(3)), ..Default::default() };
+        if shape != 0 {
+            spec.layers.push((shape, None));
+        }
+        spec.fit_width = Some(((17 + 4 * v + 2 * spec.margin_value()) * 4) as u32);
+        out.push(RJob { job, spec });
+    }
     out
 }
 
@@ -116,6 +132,11 @@ fn close(px: &[u8], want: [f64; 4], tol: f64) -> bool {
 }
 
 pub fn observe(_ctx: &Ctx, st: &mut Stats, rj: &RJob) {
+    let owned = match rj.materialise(st) {
+        Some(r) => r,
+        None => return,
+    };
+    let rj = &owned;
     let cfg = rj.job.config();
     st.eval();
     let qr = match adapter::build(&cfg) {
